@@ -84,6 +84,7 @@ type frame struct {
 	fc      *FuncContract
 	vals    map[ssa.Value]*Val
 	prefix  string
+	lastResolvedAlloc *ssa.Alloc // set by resolveLocal when the name is an escaping scalar cell
 	entry   *Heap
 	out     map[*ssa.BasicBlock]*State
 	edge    map[[2]*ssa.BasicBlock]*Term
@@ -543,6 +544,12 @@ func (fr *frame) loopEnv(b *ssa.BasicBlock, st *State, phiVals map[*ssa.Phi]*Val
 				// a private local cell: its current content
 				return valTV(fr.loadLoc(v.Loc, st, nil)), true
 			}
+			if v.Loc == nil && v.T != nil && fr.lastResolvedAlloc != nil {
+				// an escaping scalar local (its address was passed on): the
+				// name denotes the current content of its cell
+				pt := fr.lastResolvedAlloc.Type().(*types.Pointer)
+				return TV{T: Select(st.heap.get(fr.w.cellHeap(pt.Elem())), v.T), Ty: pt.Elem()}, true
+			}
 			if v.Loc != nil {
 				return TV{}, false
 			}
@@ -605,7 +612,8 @@ func (fr *frame) resolveLocal(name string, at *ssa.BasicBlock) (*Val, bool) {
 							if pt, ok := x.X.Type().(*types.Pointer); ok {
 								if _, isSt := types.Unalias(pt.Elem()).Underlying().(*types.Struct); isSt {
 									cand = x.X
-								} else if !allocEscapes(al) {
+								} else if !allocEscapes(al) || fr.w.sortOf(pt.Elem()) != "" {
+									// (an escaping scalar cell lives in the C: heap; see loopEnv)
 									cand = x.X
 								}
 							}
@@ -622,6 +630,15 @@ func (fr *frame) resolveLocal(name string, at *ssa.BasicBlock) (*Val, bool) {
 					continue
 				}
 			}
+			if al, ok := cand.(*ssa.Alloc); ok && allocEscapes(al) {
+				if pt, ok := al.Type().(*types.Pointer); ok && fr.w.sortOf(pt.Elem()) != "" {
+					if _, have := fr.vals[cand]; have {
+						// the cell of an escaping scalar local always wins over values loaded from it earlier
+						best, bestDepth, bestIdx = cand, 1<<30, i
+						continue
+					}
+				}
+			}
 			if d > bestDepth || (d == bestDepth && i > bestIdx) {
 				if _, ok := fr.vals[cand]; ok || isConstOrParam(cand) {
 					best, bestDepth, bestIdx = cand, d, i
@@ -631,6 +648,14 @@ func (fr *frame) resolveLocal(name string, at *ssa.BasicBlock) (*Val, bool) {
 	}
 	if best == nil {
 		return nil, false
+	}
+	fr.lastResolvedAlloc = nil
+	if al, ok := best.(*ssa.Alloc); ok {
+		if pt, ok := al.Type().(*types.Pointer); ok && fr.w.sortOf(pt.Elem()) != "" && allocEscapes(al) {
+			if _, isSt := types.Unalias(pt.Elem()).Underlying().(*types.Struct); !isSt {
+				fr.lastResolvedAlloc = al
+			}
+		}
 	}
 	return fr.get(best), true
 }
